@@ -117,6 +117,26 @@ out:
 	gs_reset(g); if (dst) gs_reset(s_dst);
 }
 
+/* lengths above 4 GiB (the length parameters are 64 bits wide): the whole-buffer value must equal the value chained over two pieces that are
+ * each shorter than 4 GiB - a length truncated to 32 bits anywhere changes the first and not the second.  The buffer is a MAP_NORESERVE mapping
+ * of the shared zero page with a few bytes set around the 4 GiB mark; table-driven base variants are left out (minutes per pass). */
+static void huge_lengths(void)
+{
+	size_t L = (4ull << 30) + 77, cut = 3ull << 30; uint8_t *p = NULL; long n = 0;
+	for (int i = 0; i < NSYMS; i++) {
+		long idx = 600000000l + i; if (!v_mine(idx) || !syms[i].ok) continue;
+		if (syms[i].kind == K_CRC16COPY || syms[i].kind == K_ISCSI || syms[i].kind == K_BAM1 || !strcmp(syms[i].isa, "base")) continue;
+		if (!p) { p = mmap(0, L + 4096, PROT_READ | PROT_WRITE, MAP_PRIVATE | MAP_ANONYMOUS | MAP_NORESERVE, -1, 0); if (p == MAP_FAILED) { v_set("huge_lengths", "skipped: mmap failed"); return; }
+			p[0] = 0x31; p[(4ull << 30) - 1] = 0x80; p[(4ull << 30) + 5] = 0x07; p[L - 1] = 0xfe; p[cut - 1] = 0x55; p[cut] = 0xaa; }
+		v_setcase(idx, "sym=%s len = 4 GiB + 77 in one call vs chained over 3 GiB + the rest", syms[i].name);
+		uint64_t seed = 0x1234567u, whole = 0, chain = 0; char key[200];
+		if (V_TRY(600)) { whole = call(&syms[i], seed, p, NULL, L); chain = call(&syms[i], call(&syms[i], seed, p, NULL, cut), p + cut, NULL, L - cut); V_END; } else { fault(&syms[i]); continue; }
+		syms[i].calls += 3; n++; v_count("lengths_over_4GiB", syms[i].name, 1);
+		if (whole != chain) { snprintf(key, sizeof key, "split-mismatch:%s:over-4GiB", syms[i].name); v_viol(key, "len 4 GiB + 77: one call gives %llx, 3 GiB + rest chained gives %llx", (unsigned long long) whole, (unsigned long long) chain); }
+	}
+	if (p) munmap(p, L + 4096);
+	v_stat("variants_run_over_4GiB", n);
+}
 int main(int argc, char **argv)
 {
 	v_init(argc, argv);
@@ -130,6 +150,7 @@ int main(int argc, char **argv)
 		int ok = v_isa_ok(syms[i].isa); if (ok < 0) v_harness_fail("unknown ISA suffix '%s' of %s", syms[i].isa, syms[i].name);
 		syms[i].ok = ok; if (!ok) v_set("skipped_not_executable_on_host", syms[i].name);
 	}
+	if (!strcmp(vopt.prop, "C04")) huge_lengths();
 	/* A: systematic length sweep 0..1100 per symbol, then random lengths */
 	long per = (long) ((vopt.thorough ? 1101 * 12 : 1101 + 500) * vopt.scale);
 	for (long q = 0; q < per; q++) for (int i = 0; i < NSYMS; i++) {
